@@ -285,7 +285,7 @@ pub const BAD_CLASSES: &[&str] = &[
     "ttl_time_overflow", "ttl_head_overflow", "meta_bad_b64", "meta_bad_utf8", "meta_bad_json", "meta_non_ascii",
     "get_bad_id", "get_short_id", "delete_bad_id", "head_bad_ctx", "cas_empty", "cas_bad_hash", "cas_bad_digest",
     "cas_absent", "cas_empty_chunked", "cas_unpadded", "cas_unpadded_present", "cas_short_digest", "cas_sha512_absent", "cas_sha1", "cas_empty_digest",
-    "cas_two_hashes", "cas_urlsafe_digest", "cas_trailing_slash", "import_not_json", "import_not_frame", "import_nul_topic", "put_other", "patch_root",
+    "cas_two_hashes", "cas_urlsafe_digest", "cas_trailing_slash", "import_not_json", "import_two_second_bad", "import_not_frame", "import_nul_topic", "put_other", "patch_root",
     "get_unknown_id", "delete_unknown_id", "head_unknown_topic",
 ];
 
@@ -351,6 +351,11 @@ pub fn bad(sock: &Path, class: &str) -> (Resp, &'static str) {
         ),
         "cas_trailing_slash" => (req(sock, "GET", "/cas/", &[], &[]), "4xx"),
         "import_not_json" => (req(sock, "POST", "/import", &[], b"{nope"), "4xx"),
+        // two frames in one body, the second one unacceptable: refused, and nothing of it stored
+        "import_two_second_bad" => (
+            req(sock, "POST", "/import", &[], format!("{{\"topic\":\"two.a\",\"context_id\":\"0000000000000000000000000\",\"id\":\"03d4q1qhbiv09ovtuhokw5yxw\",\"hash\":null,\"meta\":null,\"ttl\":\"forever\"}}\n{{\"topic\":\"a\\u0000b\",\"context_id\":\"0000000000000000000000000\",\"id\":\"03d4q1qhbiv09ovtuhokw5yxx\",\"hash\":null,\"meta\":null,\"ttl\":\"forever\"}}").as_bytes()),
+            "4xx",
+        ),
         "import_not_frame" => (req(sock, "POST", "/import", &[], b"{\"a\": 1}"), "4xx"),
         "import_nul_topic" => (
             req(sock, "POST", "/import", &[], format!("{{\"topic\":\"a\\u0000b\",\"context_id\":\"0000000000000000000000000\",\"id\":\"{unknown}\",\"hash\":null,\"meta\":null,\"ttl\":\"forever\"}}").as_bytes()),
